@@ -80,6 +80,16 @@ def witness_shift_loop(P, site):
     if not witness_unit_counter(P, site):
         return False
     b = P.body[site.fn]
+    # the argument is complete in itself (at most 64 rounds) when the counter starts small: every constant it is set to is within 0..32,
+    # so that the count fits the narrowest integer type
+    rv = _site_op(P, site)
+    cl = MU.Chaser(b).root(rv["l"], through_calls=False)[0]
+    for bl in b["blocks"]:
+        for st in bl["stmts"]:
+            if st["k"] == "assign" and not st["place"]["proj"] and st["place"]["local"] == cl and st["rv"]["k"] == "use" and "const" in st["rv"]["op"]:
+                v = st["rv"]["op"]["const"].get("int")
+                if v is None or not (0 <= int(v) <= 32):
+                    return False
     for head, nodes in natural_loops(b).items():
         if site.bb in nodes and R_shift_loop(b, nodes):
             return True
@@ -153,6 +163,7 @@ def witness_sum_of_unit_counters(P, site):
     return False
 
 
+SELF_CONTAINED = [("shift-loop", "counts the rounds of a loop that shifts an unsigned value right until it is 0: at most 64, from a start within 0..32")]
 WITNESS = {"sum-of-unit-counters": witness_sum_of_unit_counters, "unit-counter": witness_unit_counter, "index-plus-one": witness_index_plus_one,
            "sum-of-lens": witness_sum_of_lens, "shift-loop": witness_shift_loop}
 
@@ -338,7 +349,12 @@ def run(tier):
                         ok, why, method = True, reason, "counter-table"
                         break
                 else:
-                    if rows:
+                    # witnesses whose argument needs nothing from the function around them hold wherever the operation stands
+                    for wit, reason in SELF_CONTAINED:
+                        if WITNESS[wit](P, s):
+                            ok, why, method = True, reason, "counter-table"
+                            break
+                    if not ok and rows:
                         why = "%s; and no entry of the counter table for this function has a witness that holds for this operation" % why
             elif s.kind == "panic" and "Display>::fmt" in s.fn:
                 okd, whyd = display_disabled_variant(P, s)
